@@ -957,7 +957,8 @@ def run(ctx):
                                    "scenarios": len(S) + len(valid_scenarios(ctx)), "exhaustive_yield_vectors": [f"{a}: {{0..{2 if ctx.quick else 3}}}^{b} = {c}" for a, b, c in exhaustive][:80]}
     ctx.add_eval(n_runs + n)
     ctx.coverage["distinct_nontrivial"] = n_nontrivial
-    ctx.coverage["exhaustive"] = f"all yield vectors in {{0..{2 if ctx.quick else 3}}}^n for every scenario with n <= {4 if ctx.quick else 5} awaitables ({len(exhaustive)} scenarios); random vectors in {{0..3}}^n beyond"
+    ctx.coverage["exhaustive"] = False
+    ctx.notes["exhaustive_scope"] = f"all yield vectors in {{0..{2 if ctx.quick else 3}}}^n for every scenario with n <= {4 if ctx.quick else 5} awaitables ({len(exhaustive)} scenarios); random vectors in {{0..3}}^n beyond"
     ctx.coverage["rule"] = ("implementation runs of requirement_constraint_evaluation / format_constraint_evaluation (alone and several concurrently, each task setting its own text) / "
                             "evaluate_ahb_expression_tree (2-3 modal-mark parts, plain and awaitable) / parse_expression_including_unresolved_subexpressions(resolve_packages=True) "
                             "(repeated, top-level, unresolvable packages) / the gather+zip sites called directly with repeated keys and occurrence-dependent answers / gather_if_necessary / "
